@@ -12,6 +12,13 @@ pub(crate) fn stub_rs_new() -> std::hash::RandomState {
     unsafe { core::mem::transmute::<[u64; 2], std::hash::RandomState>([0, 0]) }
 }
 pub(crate) fn bucket_len(b: &KBucket) -> usize { b.nodes.len() }
+pub(crate) fn empty_bucket() -> KBucket { KBucket { nodes: Vec::new() } }
+pub(crate) fn push_node(b: &mut KBucket, n: KademliaPeer) { b.nodes.push(n) }
+pub(crate) fn node_conn(b: &KBucket, i: usize) -> ConnectionType { b.nodes[i].connection }
+pub(crate) fn mk_node(tag: u8, key: [u8; 32], c: ConnectionType) -> KademliaPeer {
+    KademliaPeer { key: fab_key(pid(tag), key), peer: pid(tag), address_store: AddressStore::default(), connection: c }
+}
+pub(crate) fn any_conn_pub() -> ConnectionType { any_conn() }
 pub(crate) fn pid(b: u8) -> PeerId { PeerId::from_bytes(&[0u8, 1, b]).unwrap() }
 fn kb(tag: u8, x: u8) -> [u8; 32] { let mut k = [0u8; 32]; k[0] = tag; k[31] = x; k }
 fn node(tag: u8, x: u8, c: ConnectionType) -> KademliaPeer {
